@@ -130,3 +130,43 @@ for nm, patterns in SHEETS.items():
              ensures=[('one-record-per-row-in-order', 'len(result) == %d' % len(patterns))] +
                      [('row-%d-has-exactly-its-non-empty-cells' % i, 'spec.excel.same_record(result[%d], %s)' % (i, expected(i, p)))
                       for i, p in enumerate(patterns)])
+
+# ---- a preset chosen in one row must not carry that row's values into later rows (the preset table is shared by all rows) ----
+import ast as _ast
+from pvc import live as _live
+
+
+def preset_keys(model):
+    """keys of pmutt.statmech.presets[model], read from the current source"""
+    for st in _live._tree('pmutt.statmech').body:
+        if isinstance(st, _ast.Assign) and any(isinstance(t, _ast.Name) and t.id == 'presets' for t in st.targets):
+            for k, v in zip(st.value.keys, st.value.values):
+                if _ast.literal_eval(k) == model:
+                    return [_ast.literal_eval(kk) for kk in v.keys]
+    raise KeyError(model)
+
+
+H2 = ['name', 'potentialenergy', 'spin', 'statmech_model']
+for model in ('IdealGas', 'Harmonic'):
+    pk = preset_keys(model.lower())
+    rows = [[Const('A'), V(), V(), Const(model)], [Const('B'), None, None, Const(model)], [Const('C'), V(), None, Const(model)]]
+    contract(X + 'read_excel', P, label='preset-rows[%s]' % model, args=dict(io=Table(H2, rows)),
+             ensures=[('one-record-per-row-in-order', 'len(result) == 3'),
+                      ('row-0-keys', 'sorted(result[0].keys()) == %r' % sorted(set(['name', 'potentialenergy', 'spin'] + pk))),
+                      ('row-1-has-no-value-of-row-0', 'sorted(result[1].keys()) == %r' % sorted(set(['name'] + pk))),
+                      ('row-2-keys', 'sorted(result[2].keys()) == %r and result[2]["potentialenergy"] == cell(io, 2, 1)'
+                       % sorted(set(['name', 'potentialenergy'] + pk)))],
+             cross_check=False)
+contract(X + 'set_statmech_model', P, label='preset-table-not-written',
+         args=dict(model=Const('IdealGas'), output_structure=DictOf({'potentialenergy': Real(-10., 0.), 'spin': Real(0., 2.)})),
+         ensures=[('preset-table-unchanged', "sorted(pm.statmech.presets['idealgas'].keys()) == %r" % sorted(preset_keys('idealgas')))],
+         cross_check=False)
+
+# ---- sheets without a comment row: skiprows=None / [] means that no row is skipped ------------------------------------------
+for skip in (None, []):
+    contract(X + 'read_excel', P, label='no-comment-row,skiprows=%r' % (skip,),
+             args=dict(io=Table(['name', 'potentialenergy'], [[Const('A'), V()], [Const('B'), V()], [Const('C'), V()]], comment_row=False),
+                       skiprows=Const(skip)),
+             ensures=[('one-record-per-row-in-order', 'len(result) == 3 and [r["name"] for r in result] == ["A", "B", "C"]'),
+                      ('values', 'all(result[i]["potentialenergy"] == cell(io, i, 1) for i in range(3))')],
+             cross_check=False)
